@@ -156,7 +156,10 @@ func nilDeref() {
 }
 
 // visitInstr interprets a single ssa.Instruction.
+var curFrame *frame
+
 func visitInstr(fr *frame, instr ssa.Instruction) continuation {
+	curFrame = fr
 	fr.i.steps++
 	fr.i.pathSteps++
 	if fr.i.pathSteps > fr.i.maxPathSteps {
@@ -226,6 +229,9 @@ func visitInstr(fr *frame, instr ssa.Instruction) continuation {
 		case *value:
 			if addr == nil {
 				nilDeref()
+			}
+			if mon.on {
+				monWrite(addr, fr.get(instr.Val), fr)
 			}
 			store(mustDeref(instr.Addr.Type()), addr, fr.get(instr.Val))
 		case symaddr:
@@ -322,6 +328,9 @@ func visitInstr(fr *frame, instr ssa.Instruction) continuation {
 		for i := range sl {
 			sl[i] = zero(tElt)
 		}
+		if !trailOn && c > 0 {
+			mon.setupArrays[&sl[0]] = true
+		}
 		fr.env[instr] = sl[:n]
 
 	case *ssa.MakeMap:
@@ -336,6 +345,9 @@ func visitInstr(fr *frame, instr ssa.Instruction) continuation {
 		fr.env[instr] = makeMap(instr.Type().Underlying().(*types.Map).Key(), 0)
 
 	case *ssa.Range:
+		if m, ok := fr.get(instr.X).(*omap); ok {
+			monMap(m, false, fr)
+		}
 		fr.env[instr] = rangeIter(fr.get(instr.X), instr.X.Type())
 
 	case *ssa.Next:
@@ -347,6 +359,9 @@ func visitInstr(fr *frame, instr ssa.Instruction) continuation {
 			nilDeref()
 		}
 		fr.env[instr] = &(*p).(structure)[instr.Field]
+		if fieldLogOn {
+			noteFieldAddr(mustDeref(instr.X.Type()), (*p).(structure), instr.Field, &(*p).(structure)[instr.Field])
+		}
 
 	case *ssa.Field:
 		fr.env[instr] = fr.get(instr.X).(structure)[instr.Field]
@@ -443,6 +458,7 @@ func visitInstr(fr *frame, instr ssa.Instruction) continuation {
 		if m == nil {
 			panic(targetPanic{runtimeErr("assignment to entry in nil map")})
 		}
+		monMap(m, true, fr)
 		m.insert(fr.get(instr.Key), copyVal(fr.get(instr.Value)))
 
 	case *ssa.TypeAssert:
